@@ -187,3 +187,20 @@ def apalache_timer_core(res):
     rec['obligations'] = len(obligations)
     rec['discharged'] = done
     rec['note'] = 'unbounded waits and dt, 3 coroutines; TimerCore.tla abstracts the wake-up arithmetic of Coroutines.tla (same equations: TimerInvariant)'
+
+
+def simulate_big(res, sets=10, num_per_worker=60, depth=50):
+    """Model-level exploration beyond the exhaustive instances (thorough tier): 4 coroutines with random scripts mixing
+    waits, in-body kill / start / state calls (yielding or not) and bodies that raise, top-level kills, dt in 0..3:
+    `tlc -simulate` evaluates every invariant and action property along random behaviours.  Nothing is replayed
+    (recorded executions - pipeline B - cover the code at that scale): this looks for interactions between features
+    that no exhaustive instance combines, in the design itself."""
+    import random
+    from .. import record_coroutines as rc
+    rnd = random.Random(res.seed)
+    for i in range(sets):
+        G, S = rc.random_scripts(rnd, 4)
+        K = dict(G=G, Script=S, Dts={0, 1, 2, 3}, MaxTimer=30, WithKill=True, StartCancelsPendingKill=True, FinishDropsKillMark=True,
+                 BodyExceptionCleansUp=True)
+        res.simulate_py('Coroutines', 'sim_big_%d' % i, K, num_per_worker, depth, spec='Spec', invariants=INVARIANTS,
+                        properties=PROPERTIES, parse=False, workers=16, timeout=600)
